@@ -417,10 +417,12 @@ TFs ==
                [] OTHER -> disk
   \* the log format (RainLog: WriterPosition): a fragment never crosses a 32 KiB block boundary and
   \* never starts in the last 6 bytes of a block - i.e. the writer knows where in the file it is
-  \* (it does not if the size query at reopen-for-append failed and the failure was swallowed)
+  \* (it does not if the size query at reopen-for-append failed and the failure was swallowed).
+  \* Judged on the CONTENTS of the file after the write (SimFs parses the log items incrementally,
+  \* field logbad), not on the individual write call: a writer may hand a whole multi-block record,
+  \* trailers included, to the file in one call
   /\ JudgeAnd(IF Ev.op = "write" /\ Ev.kind \in {"wal", "manifest"}
-              THEN IF (Ev.off \div 32768 # (Ev.off + Ev.len - 1) \div 32768)
-                      \/ (Ev.len >= 7 /\ (Ev.off % 32768) > 32768 - 7)
+              THEN IF Ev.logbad = 1
                    THEN ObsViol(IF FaultMode THEN <<"C08", "C12">> ELSE <<"C12">>,
                                 "LogWriterMisplaced", [keys |-> <<Ev.n, Ev.off, Ev.len>>, at |-> 0])
                    ELSE <<>>
